@@ -16,7 +16,8 @@ META = {
             '3*2^38, 2^38+2^12, 2^63, u64::MAX, 2^64+64) and back; last block pending + failing apply (+ empty apply '
             'while pending); end of the u64 range; current_pos at type edges; wide path after a mid-block seek; repeated '
             'failing applies; backward seeks; [new] 2-8 KiB applies from a mid-block seek (8..32 wide iterations in one '
-            'call, twice); [new] 4-5 KiB across 2^32 blocks (IETF: refused whole, then exactly to the end, then one more '
+            'call, twice; in the first round, i.e. once per run, followed by ONE apply of 64 KiB + 256..4255 bytes continuing mid-block: '
+            '> 256 wide iterations and > 2^16 bytes in one call, whole output compared with the model and the block oracle); [new] 4-5 KiB across 2^32 blocks (IETF: refused whole, then exactly to the end, then one more '
             'byte refused); random histories: positions concentrated at 0, 2^32 blocks, k*2^32 blocks (k >= 2), 2^38 '
             'bytes, 2^64 bytes; every SeekNum type incl. negative i32, u128 beyond 2^64 up to 2^128-1, IETF seeks '
             '2^38+1..2^64 (near, k*2^38, 2^63, u64::MAX); current_pos after refused seeks; 1.2 % of the applies 2-16 KiB; '
@@ -25,7 +26,8 @@ META = {
             'own block oracle (fresh instance seeked to the block; a block the oracle cannot produce is a failure, not a '
             'skip; up to 700 blocks per call), after every refused call current_pos::<u128>() and what a clone of the '
             'Buffer does next, at the end of every history that a clone of the Buffer continues like the object, then '
-            're-runs each history re-chunked (pieces 1..3 KiB), re-seeked and applied twice',
+            're-runs each history re-chunked (pieces 1..3 KiB), re-seeked and applied twice; every apply longer than 16 640 '
+            'bytes must also equal the same data applied in 4 KiB calls on a fresh instance seeked to its position',
     "assumptions": ["little-endian host", "cipher 0.3 StreamCipher/StreamCipherSeek provided methods only forward to try_apply_keystream/try_seek/try_current_pos"],
 }
 
